@@ -354,6 +354,7 @@ func c16Reconnecting(c *Ctx) {
 	wls := []wl{
 		{"idle", nil, false},
 		{"pub", []rcReq{{Kind: "p1", Tag: "m1", Phase: 'S'}}, false},
+		{"pub+slow-onerror", []rcReq{{Kind: "p1", Tag: "m1", Phase: 'S'}}, false}, // OnError takes 2.5 s: the next connection exists before the failed task has finished
 		{"pub+disconnect", []rcReq{{Kind: "p1", Tag: "m1", Phase: 'S'}}, true},
 		{"idle+disconnect", nil, true},
 		{"pub-late+disconnect", []rcReq{{Kind: "p1", Tag: "m1", Phase: 'T'}}, true},
@@ -374,6 +375,9 @@ func c16Reconnecting(c *Ctx) {
 				Body: func() {
 					discStart, discEnd := int64(-1), int64(-1)
 					cfg := &rcCfg{Reqs: w.reqs, Faults: faults, KeepSession: true, PingInterval: interval, ConnTimeout: timeout}
+					if strings.Contains(w.name, "slow-onerror") {
+						cfg.SlowOnError = 2500 * time.Millisecond
+					}
 					if w.disc {
 						cfg.AfterConnect = func(r *rcRun) {
 							vrt.Go("disconnector", func() {
